@@ -72,8 +72,9 @@ func (f *FileHeaderRaw) Money() (money int32) {
 }
 
 func (f *FileHeaderRaw) SetMoney(money int32) (err error) {
-	buf := bytes.NewBuffer(f.Multi[:4])
-	return types.BinaryWrite(buf, binary.LittleEndian, &money)
+	// write into the field itself (a bytes.Buffer over it would append behind it)
+	binary.LittleEndian.PutUint32(f.Multi[:4], uint32(money))
+	return nil
 }
 
 func (f *FileHeaderRaw) AnonUID() (anonUID int32) {
@@ -83,8 +84,8 @@ func (f *FileHeaderRaw) AnonUID() (anonUID int32) {
 }
 
 func (f *FileHeaderRaw) SetAnonUID(uid UID) (err error) {
-	buf := bytes.NewBuffer(f.Multi[:4])
-	return types.BinaryWrite(buf, binary.LittleEndian, &uid)
+	binary.LittleEndian.PutUint32(f.Multi[:4], uint32(uid))
+	return nil
 }
 
 func (f *FileHeaderRaw) VoteLimits() *VoteLimits {
